@@ -74,6 +74,20 @@ CLAIMS = {
         note="trusts clang AST/CFG, the extractor, thread-safety of boost/libstdc++ internals; std::function targets "
              "supplied by users are outside the claim",
         technique="static analysis: static-storage effect inventory + lockset by dominance over the call-graph closure"),
+    "C12": dict(
+        level="other", engine="engine C (lin.py, bounds.py)",
+        text="Linear-inequality abstract interpretation of every member of DynamicBitset and of its four iterator "
+             "instantiations (constructors and base constructors inlined): std::vector<bool> is modelled by its "
+             "size; every mData[i] carries the obligation 0 <= i < size() under the path condition (guards, resize "
+             "incl. the (pos+1)*1.5 growth, loop conditions, inductive counter bounds); unsigned subtraction is linear "
+             "only if it provably does not wrap, wrapped values feeding loop variables are reported; the iterator "
+             "position invariant -1 <= pos <= size and the search-loop invariants are proved inductively; "
+             "begin()/rbegin()/++/-- must not reach a throw (so an empty or all-zero bitset is iterated without "
+             "exception). All positions and shift distances below 2^60 are covered. Bit-level agreement with a "
+             "reference model (count/any/to_string, << vs <<=) is not decided.",
+        note="trusted base: clang front end, extractor, cv/lin.py + cv/bounds.py, the size model of std::vector<bool>; "
+             "positions < 2^60 assumed",
+        technique="static analysis: relational (linear inequality) abstract interpretation, inductive loop/iterator invariants"),
     "C13": dict(
         level="proof", engine="engine D (digits.py)",
         text="Proof over all values of all eight integer types by exhaustive abstract evaluation of the source: "
